@@ -80,3 +80,303 @@ Proof.
   - intros s0 ->. apply Inv_init; assumption.
   - intros s1 a s2 I H. exact (mstep_preserves s1 a s2 I H).
 Qed.
+
+(* ------------------------------------------------------------------ the bound thread's identity never changes *)
+Lemma mtid_if (c : bool) (a b : mst) : mtid (if c then a else b) = if c then mtid a else mtid b.
+Proof. destruct c; reflexivity. Qed.
+
+Lemma some_inj {A} (a b : A) : Some a = Some b -> a = b.
+Proof. intros H. injection H. auto. Qed.
+
+Ltac brk B :=
+  repeat match type of B with
+  | (if ?x then _ else _) = Some _ => destruct x; try discriminate B
+  | match ?x with _ => _ end = Some _ => destruct x; try discriminate B
+  end.
+
+Lemma mstep_mtid s t s' : mstep s t = Some s' -> mtid s' = mtid s.
+Proof.
+  intros B. unfold mstep, lane_step in B. destruct (gstep (lane s) t) eqn:GS; destruct (mpcs s t); brk B; try discriminate B.
+  all: apply some_inj in B; rewrite <- B.
+  all: mproj; rewrite ?mtid_if; mproj.
+  all: repeat match goal with |- context [if ?x then _ else _] => destruct x end; try reflexivity.
+  all: repeat match goal with |- context [match ?x with _ => _ end] => destruct x end; reflexivity.
+Qed.
+
+Lemma mostep_mtid s t s' : mostep s t = Some s' -> mtid s' = mtid s.
+Proof.
+  intros B. unfold mostep, lane_step in B. destruct (gstep (lane s) t) eqn:GS; destruct (ostep (lane s) t) eqn:OS;
+    destruct (mpcs s t); brk B; try discriminate B.
+  all: apply some_inj in B; rewrite <- B; reflexivity.
+Qed.
+
+Lemma mbegin_mtid s t c s' : mbegin s t c = Some s' -> mtid s' = mtid s.
+Proof.
+  intros B. unfold mbegin in B. destruct (pcs (lane s) t); try discriminate B.
+  destruct c; destruct (begin (lane s) t (CWorker 0)) eqn:BG; destruct (mpcs s t); brk B; try discriminate B.
+  all: apply some_inj in B; rewrite <- B; unfold callback; mproj; rewrite ?mtid_if; mproj.
+  all: repeat match goal with |- context [if ?x then _ else _] => destruct x end; reflexivity.
+Qed.
+
+(* ================================================================== what the invariant says to a client *)
+Section Client.
+Variables (m prio rb : Z).
+Hypothesis Vm : valid_tid m.
+Hypothesis Hrb : 0 <= rb < 2.
+Notation reach := (mreach m prio rb).
+
+Lemma reach_mtid s : reach s -> mtid s = m.
+Proof.
+  intros R. induction R as [s0 ->|s a s' R IH H]; [reflexivity|]. rewrite <- IH.
+  destruct a as [t c|t|t|t]; destruct H as [_ B].
+  - exact (mbegin_mtid s t c s' B).
+  - exact (mstep_mtid s t s' B).
+  - exact (mostep_mtid s t s' B).
+  - unfold mspur in B. destruct (mpcs s t); try discriminate. injection B as <-. reflexivity.
+Qed.
+
+(* ---- C02: one item at a time ---- *)
+Definition in_callout (s : mst) (t i : Z) : Prop :=
+  (exists w mo, mpcs s t = MB_incall i w mo) \/ (exists o mo, pcs (lane s) t = PW_incall o i mo).
+
+Theorem mainq_exclusive s t1 i1 t2 i2 :
+  reach s -> in_callout s t1 i1 -> in_callout s t2 i2 -> t1 = t2 /\ i1 = i2 /\ running (lane s) = Some (t1, i1).
+Proof.
+  intros R C1 C2. pose proof (Inv_reachable m prio rb s Vm Hrb R) as I. pose proof I as (T & Y & V & G).
+  assert (Main : forall t i w mo, mpcs s t = MB_incall i w mo -> t = mtid s /\ mcl s = mclass (MB_incall i w mo)).
+  { intros t i w mo Hpc. apply (main_thread s t _ I Hpc). reflexivity. }
+  assert (Lane : forall t o i mo, pcs (lane s) t = PW_incall o i mo -> token (lane s) = Some (Some t)).
+  { intros t o i mo Hlp. destruct (T t) as ((Tt & _) & _). apply Tt. rewrite Hlp. reflexivity. }
+  assert (NoMix : forall t i w mo t' o i' mo', mpcs s t = MB_incall i w mo -> pcs (lane s) t' = PW_incall o i' mo' -> False).
+  { intros t i w mo t' o i' mo' Hpc Hlp. destruct (Main _ _ _ _ Hpc) as [_ Ec]. rewrite Ec in G. cbn [mclass c_lane] in G.
+    destruct G as [r G]. rewrite (a_token s r G) in *. pose proof (Lane _ _ _ _ Hlp). congruence. }
+  destruct C1 as [(w1 & m1 & P1)|(o1 & m1 & P1)]; destruct C2 as [(w2 & m2 & P2)|(o2 & m2 & P2)].
+  - destruct (Main _ _ _ _ P1) as [E1 Ec]. destruct (Main _ _ _ _ P2) as [E2 _]. assert (Et : t1 = t2) by congruence.
+    assert (Ei : i1 = i2) by (rewrite <- Et in P2; congruence). split; [exact Et|]. split; [exact Ei|].
+    rewrite Ec in G. cbn [mclass c_lane] in G. destruct G as [r G]. rewrite (a_running s r G), Ec, E1. reflexivity.
+  - destruct (NoMix _ _ _ _ _ _ _ _ P1 P2).
+  - destruct (NoMix _ _ _ _ _ _ _ _ P2 P1).
+  - pose proof (Lane _ _ _ _ P1) as K1. pose proof (Lane _ _ _ _ P2) as K2. assert (Et : t1 = t2) by congruence.
+    assert (Ei : i1 = i2) by (rewrite <- Et in P2; congruence). split; [exact Et|]. split; [exact Ei|].
+    destruct (c_lane (mcl s)).
+    + destruct G as [[[r G] _] _]. rewrite (g_running _ _ G), K1, P1. reflexivity.
+    + destruct G as [r G]. rewrite (a_token s r G) in K1. discriminate.
+Qed.
+
+(* while the queue is thread-bound (and until cleanup2 has released it) every callout is on the bound thread ... *)
+Theorem mainq_callouts_on_main_thread s t i :
+  reach s -> c_lane (mcl s) = false -> in_callout s t i -> t = m.
+Proof.
+  intros R CL C. pose proof (Inv_reachable m prio rb s Vm Hrb R) as I. pose proof I as (T & Y & V & G).
+  rewrite <- (reach_mtid s R). destruct C as [(w & mo & P)|(o & mo & P)].
+  - apply (main_thread s t _ I P). reflexivity.
+  - exfalso. rewrite CL in G. destruct G as [r G]. destruct (T t) as ((Tt & _) & _).
+    assert (token (lane s) = Some (Some t)) by (apply Tt; rewrite P; reflexivity). rewrite (a_token s r G) in H. discriminate.
+Qed.
+
+(* ... including the blocks of dispatch_sync / dispatch_async_and_wait callers from other threads: the callout of a
+   synchronous context was begun by the bound thread's drain, never by its caller *)
+Theorem mainq_sync_items_run_on_main s i :
+  reach s -> In i (started (lane s)) -> waiter_of s i <> 0 -> In i (mainran s).
+Proof. intros R. pose proof (Inv_reachable m prio rb s Vm Hrb R) as (_ & Y & _). exact (y_ran s Y i). Qed.
+
+(* ---- C02: submission (tail-exchange) order, each item at most once ---- *)
+Theorem mainq_fifo s :
+  reach s -> exists rest, zrange (nextid (lane s)) = rev (started (lane s)) ++ rest /\ NoDup (started (lane s)) /\
+                          (forall i, In i (started (lane s)) -> 0 <= i < nextid (lane s)).
+Proof.
+  intros R. pose proof (Inv_reachable m prio rb s Vm Hrb R) as I. pose proof I as (T & Y & V & G).
+  assert (X : exists rest, rev (started (lane s)) ++ rest = zrange (nextid (lane s))).
+  { destruct (c_lane (mcl s)).
+    - destruct G as [[[r G] _] _]. eexists. exact (g_order _ _ G).
+    - destruct G as [r G]. eexists. exact (a_order s r G). }
+  destruct X as [rest E]. exists rest. split; [symmetry; exact E|].
+  assert (ND : NoDup (rev (started (lane s)))) by (apply (prefix_nodup _ _ _ E), zrange_nodup).
+  split.
+  - apply NoDup_rev in ND. rewrite rev_involutive in ND. exact ND.
+  - intros i Hi. apply (started_below s i I Hi).
+Qed.
+
+Corollary mainq_kth_started_is_k s k :
+  reach s -> (k < length (started (lane s)))%nat -> nth k (rev (started (lane s))) (-1) = Z.of_nat k.
+Proof.
+  intros R Hk. destruct (mainq_fifo s R) as (rest & E & _ & _).
+  assert (Hk' : (k < length (rev (started (lane s))))%nat) by (rewrite rev_length; exact Hk).
+  rewrite <- (app_nth1 (rev (started (lane s))) rest (-1) Hk'). rewrite <- E. unfold zrange.
+  assert (Hlen : (length (rev (started (lane s))) <= length (zrange (nextid (lane s))))%nat) by (rewrite E, app_length; lia).
+  unfold zrange in Hlen. rewrite map_length, seq_length in Hlen.
+  rewrite (nth_indep _ (-1) (Z.of_nat 0)) by (rewrite map_length, seq_length; lia).
+  rewrite map_nth. rewrite seq_nth by lia. reflexivity.
+Qed.
+
+(* ---- C02 / C01 for the main queue: nothing is stranded ---- *)
+(* thread-bound phase: whenever the bound thread is outside the callback and the list is not empty, the handle is
+   readable or a thread is on its way to make it readable *)
+Theorem mainq_not_stranded s :
+  reach s -> mpcs s m = MIdle -> lst (lane s) <> [] -> 0 < evfd s \/ exists t, poker s t.
+Proof.
+  intros R Hpc Hne. pose proof (Inv_reachable m prio rb s Vm Hrb R) as (T & Y & V & G).
+  pose proof (reach_mtid s R) as Em. assert (Ec : mcl s = mclass MIdle) by (unfold mcl; rewrite Em, Hpc; reflexivity).
+  rewrite Ec in G. cbn [mclass kont c_lane] in G. destruct G as [r G].
+  destruct (a_strand s r G) as [H|[H|H]]; try (rewrite Ec; reflexivity); try exact Hne; [left; exact H | | right; exact H].
+  rewrite Ec in H. discriminate H.
+Qed.
+
+Definition quiescent (s : mst) : Prop := forall t, mpcs s t = MIdle /\ pcs (lane s) t = Idle.
+
+(* at rest, a non-empty thread-bound main queue has a readable handle *)
+Theorem mainq_quiescent_readable s :
+  reach s -> quiescent s -> lst (lane s) <> [] -> bound s = true /\ 0 < evfd s /\ hopen s = true.
+Proof.
+  intros R Q Hne. pose proof (Inv_reachable m prio rb s Vm Hrb R) as (T & Y & V & G).
+  pose proof (reach_mtid s R) as Em. destruct (Q m) as [Hpc _].
+  assert (Ec : mcl s = mclass MIdle) by (unfold mcl; rewrite Em, Hpc; reflexivity).
+  destruct (mainq_not_stranded s R Hpc Hne) as [H|[t H]].
+  - rewrite Ec in G. cbn [mclass kont c_lane] in G. destruct G as [r G].
+    split; [rewrite (a_bound s r G), Ec; reflexivity|]. split; [exact H | exact (a_hopen s r G)].
+  - exfalso. unfold poker in H. destruct (Q t) as [H1 H2]. rewrite H1, H2 in H. discriminate H.
+Qed.
+
+(* ... and when the handle is not readable either, every submitted item has run, in order: nothing was lost *)
+Theorem mainq_quiescent_all_done s :
+  reach s -> quiescent s -> evfd s = 0 ->
+  lst (lane s) = [] /\ snap s = [] /\ rev (started (lane s)) = zrange (nextid (lane s)) /\ running (lane s) = None.
+Proof.
+  intros R Q E0.
+  assert (L : lst (lane s) = []).
+  { destruct (lst (lane s)) eqn:E; [reflexivity|]. assert (Hne : lst (lane s) <> []) by congruence.
+    destruct (mainq_quiescent_readable s R Q Hne) as (_ & H & _). lia. }
+  pose proof (Inv_reachable m prio rb s Vm Hrb R) as (T & Y & V & G).
+  pose proof (reach_mtid s R) as Em. destruct (Q m) as [Hpc _].
+  assert (Ec : mcl s = mclass MIdle) by (unfold mcl; rewrite Em, Hpc; reflexivity).
+  rewrite Ec in G. cbn [mclass kont c_lane] in G. destruct G as [r G].
+  pose proof (a_snap s r G) as AS. pose proof (a_order s r G) as AO. pose proof (a_running s r G) as AR. rewrite Ec in *.
+  assert (Sn : snap s = []) by (destruct (snap s); [reflexivity | discriminate AS]).
+  split; [exact L|]. split; [exact Sn|]. split; [|exact AR].
+  rewrite Sn, L in AO. cbn [mclass kont bitem c_view ids map app] in AO. rewrite app_nil_r in AO. exact AO.
+Qed.
+
+(* ---- C02 / C05 for the main queue: a synchronous call returns only after its block finished on the bound thread ---- *)
+Theorem mainq_sync_returns_after_run s t :
+  reach s -> mpcs s t = MS_woken ->
+  w_null (ws s t) = true /\ In (w_item (ws s t)) (finished s) /\ In (w_item (ws s t)) (mainran s) /\
+  exists s', mstep s t = Some s'.
+Proof.
+  intros R Hpc. pose proof (Inv_reachable m prio rb s Vm Hrb R) as I. pose proof I as (T & _).
+  destruct (T t) as (_ & _ & _ & _ & _ & T6). pose proof (lane_of_plain s t _ I Hpc Logic.I) as Hlp.
+  unfold sinv in T6. rewrite Hpc, Hlp in T6. cbn [stage] in T6. destruct T6 as (_ & _ & _ & S5 & S6).
+  specialize (S5 eq_refl). destruct S6 as (A & B & C); [lia | exact S5|].
+  split; [exact A|]. split; [exact B|]. split; [exact C|].
+  unfold mstep. rewrite Hpc, A. eexists. reflexivity.
+Qed.
+
+(* the barrier-sync fast path and the workloop preparation never apply to the thread-bound word: the caller always
+   queues its context *)
+Theorem mainq_sync_never_fast s t q :
+  reach s -> mpcs s t = MS_fast q \/ mpcs s t = MS_prep q ->
+  f_dispatch_queue_try_acquire_barrier_sync_and_suspend 0 t 0 1 (st (lane s)) = NoCommit 0 [] /\
+  wait_prepare_loop 0 (st (lane s)) = NoCommit 1 [].
+Proof.
+  intros R Hpc. pose proof (Inv_reachable m prio rb s Vm Hrb R) as I. pose proof I as (T & Y & V & G).
+  destruct (T t) as (_ & _ & _ & _ & T5 & _).
+  assert (Hin : In t (syncers s)) by (apply T5; destruct Hpc as [-> | ->]; reflexivity).
+  destruct (sync_pre s t I Hin) as [CL _]. rewrite CL in G. destruct G as [r G].
+  rewrite (a_enc s r G). split.
+  - apply fast_refused; [exact (a_wf s r G)|]. rewrite (a_owner s r G). unfold valid_tid in V. lia.
+  - apply wait_prepare_giveup; [exact (a_wf s r G) | exact (a_role s r G)].
+Qed.
+
+(* ---- the hand-over at dispatch_main(): from the release on, the queue is an ordinary serial lane ---- *)
+Theorem mainq_handoff s :
+  reach s -> c_lane (mcl s) = true ->
+  SLane_proofs.Inv (lane s) /\ snap s = [] /\ syncers s = [] /\ bound s = false /\
+  rev (started (lane s)) ++ inflight (lane s) ++ map e_id (lst (lane s)) = zrange (nextid (lane s)).
+Proof.
+  intros R CL. pose proof (Inv_reachable m prio rb s Vm Hrb R) as (T & Y & V & G). rewrite CL in G. destruct G as [I2 G2].
+  split; [exact I2|]. split; [exact (b_snap s G2)|]. split; [exact (b_sync s G2)|]. split; [exact (b_bound s G2)|].
+  destruct I2 as [[r G] _]. exact (g_order _ _ G).
+Qed.
+
+(* every step of a thread that runs ordinary lane code is a step of Model/SLane.v on the lane component *)
+Theorem mainq_lane_steps_are_slane s t s' :
+  mpcs s t = MIdle -> mstep s t = Some s' -> gstep (lane s) t = Some (lane s') /\ mpcs s' = mpcs s.
+Proof.
+  intros Hpc B. unfold mstep in B. rewrite Hpc in B. unfold lane_step in B. destruct (gstep (lane s) t); [|discriminate].
+  injection B as <-. split; reflexivity.
+Qed.
+
+(* after the release: at rest, a non-empty queue sits in its root queue (a worker can pick it up) *)
+Theorem mainq_lane_not_stranded s :
+  reach s -> c_lane (mcl s) = true -> (forall t, pcs (lane s) t = Idle) -> lst (lane s) <> [] ->
+  rootq (lane s) = 1 /\ token (lane s) = Some None.
+Proof.
+  intros R CL Q L. destruct (mainq_handoff s R CL) as ([[r G] T] & _). destruct G.
+  assert (Wk : wakers (lane s) = []).
+  { destruct (wakers (lane s)) as [|w l] eqn:E; [reflexivity|]. destruct (T w) as (_ & T2 & _). rewrite Q in T2.
+    assert (In w (wakers (lane s))) by (rewrite E; left; reflexivity). apply T2 in H. discriminate. }
+  destruct (g_nostrand L) as [H|H]; [|congruence].
+  destruct (token (lane s)) as [[w|]|] eqn:K; [| split; [rewrite g_rootq; reflexivity | reflexivity] | congruence].
+  destruct (T w) as (T1 & _). rewrite Q in T1. assert (token_pc Idle = true) by (apply T1; exact K). discriminate.
+Qed.
+
+End Client.
+
+(* ================================================================== an executable run (non-vacuity) *)
+Definition mact_valid (a : mact) : bool :=
+  match a with MBegin t _ | MStep t | MStepO t | MSpur t => (0 <? t) && (t <? 1073741824) end.
+
+Lemma mrun_reach m prio rb acts : forall s s',
+  mreach m prio rb s -> forallb mact_valid acts = true -> mrun s acts = Some s' -> mreach m prio rb s'.
+Proof.
+  induction acts as [|a acts IH]; intros s s' R V H; cbn [mrun] in H.
+  - injection H as <-. exact R.
+  - cbn [forallb] in V. apply andb_true_iff in V as [Va V].
+    assert (Vt : forall t, (0 <? t) && (t <? 1073741824) = true -> valid_tid t).
+    { intros t E. apply andb_true_iff in E as [E1 E2]. apply Z.ltb_lt in E1, E2. split; assumption. }
+    destruct a as [t c|t|t|t]; cbn [mact_valid] in Va.
+    + destruct (mbegin s t c) as [s1|] eqn:B; [|discriminate]. apply (IH s1 s'); [|exact V|exact H].
+      apply (reach_step _ _ s (MBegin t c) s1 R). split; [apply Vt; exact Va | exact B].
+    + destruct (mstep s t) as [s1|] eqn:B; [|discriminate]. apply (IH s1 s'); [|exact V|exact H].
+      apply (reach_step _ _ s (MStep t) s1 R). split; [apply Vt; exact Va | exact B].
+    + destruct (mostep s t) as [s1|] eqn:B; [|discriminate]. apply (IH s1 s'); [|exact V|exact H].
+      apply (reach_step _ _ s (MStepO t) s1 R). split; [apply Vt; exact Va | exact B].
+    + destruct (mspur s t) as [s1|] eqn:B; [|discriminate]. apply (IH s1 s'); [|exact V|exact H].
+      apply (reach_step _ _ s (MSpur t) s1 R). split; [apply Vt; exact Va | exact B].
+Qed.
+
+Definition quiescent_dec (s : mst) (ts : list Z) : bool :=
+  forallb (fun t => match mpcs s t, pcs (lane s) t with MIdle, Idle => true | _, _ => false end) ts.
+
+(* bound thread 100; pushers 5 and 6 (6 pushes onto a non-empty list and takes the override wakeup), synchronous caller 7
+   (parks on its thread event), the bound thread services the handle and drains the three items (the third is 7's
+   context: run on the bound thread, then signalled with futex_wake), 7 returns, 5 pushes again, dispatch_main()
+   hands the queue over with that item queued, worker 8 drains it as an ordinary serial lane *)
+Definition demo_steps (t : Z) (n : nat) : list mact := repeat (MStep t) n.
+Definition demo_phase1 : list mact :=
+  [MBegin 5 (MAsync 0)] ++ demo_steps 5 9 ++
+  [MBegin 6 (MAsync 0); MStep 6; MStepO 6] ++ demo_steps 6 6 ++
+  [MBegin 7 (MSync false 0)] ++ demo_steps 7 8.
+Definition demo_drain : list mact :=
+  [MBegin 100 MService] ++ demo_steps 100 6 ++ demo_steps 100 4 ++ demo_steps 100 4 ++ demo_steps 100 5 ++ demo_steps 100 7 ++
+  demo_steps 7 3.
+Definition demo_phase2 : list mact :=
+  [MBegin 5 (MAsync 0)] ++ demo_steps 5 9 ++ [MBegin 100 MMain] ++ demo_steps 100 8 ++ [MBegin 8 (MWorker 0)] ++ demo_steps 8 8.
+Definition demo_acts := demo_phase1 ++ demo_drain ++ demo_phase2.
+
+Lemma demo_parked :
+  exists s, mrun (minit 100 0 1) demo_phase1 = Some s /\ mreach 100 0 1 s /\
+            mpcs s 7 = MS_sleep /\ map e_id (lst (lane s)) = [0; 1; 2] /\ waiter_of s 2 = 7 /\ evfd s = 2 /\ mpcs s 100 = MIdle.
+Proof.
+  eexists. split; [vm_compute; reflexivity|]. split; [|repeat split].
+  apply (mrun_reach 100 0 1 demo_phase1 (minit 100 0 1)); [apply reach_init; reflexivity | reflexivity | vm_compute; reflexivity].
+Qed.
+
+Lemma demo_final :
+  exists s, mrun (minit 100 0 1) demo_acts = Some s /\ mreach 100 0 1 s /\
+            quiescent_dec s [5; 6; 7; 8] = true /\ mpcs s 100 = MC_gone /\ started (lane s) = [3; 2; 1; 0] /\
+            mainran s = [2; 1; 0] /\ finished s = [2; 1; 0] /\ lst (lane s) = [] /\ rootq (lane s) = 0 /\ nextid (lane s) = 4 /\
+            bound s = false /\ hopen s = false /\ syncers s = [] /\ st (lane s) = 9005068950962176.
+Proof.
+  eexists. split; [vm_compute; reflexivity|]. split; [|repeat split].
+  apply (mrun_reach 100 0 1 demo_acts (minit 100 0 1)); [apply reach_init; reflexivity | reflexivity | vm_compute; reflexivity].
+Qed.
